@@ -141,14 +141,14 @@ def run_harnesses(rep, crate_rel, harnesses, features, target, timeout_each=600,
                 txt = '\n'.join(fl)
                 # Only failures of CBMC to finish (unwinding assertions, unsupported constructs) are undecided
                 failed_desc = re.findall(r'Failed Checks: (.*)', txt)
-                unsupported = [d for d in failed_desc if 'not currently supported' in d or 'unwinding assertion' in d]
+                unsupported = [d for d in failed_desc if 'not currently supported' in d or 'unwinding assertion' in d or 'HARNESS-LIMIT' in d]
                 real = [d for d in failed_desc if d not in unsupported]
                 if not failed_desc:
                     ob.status = 'undecided'
                     ob.detail = 'harness %s: CBMC ended without reporting a failed check (crash / out of memory / killed): %s' % (full, txt[-600:])
                 elif failed_desc and not real:
                     ob.status = 'undecided'
-                    ob.detail = 'only unwinding/unsupported-construct checks failed: ' + '; '.join(unsupported)[:800]
+                    ob.detail = 'only unwinding / unsupported-construct / harness-limit checks failed: ' + '; '.join(unsupported)[:800]
                 else:
                     ob.status = 'failed'
                     ob.detail = 'harness %s FAILED\n%s' % (full, txt[-3000:])
